@@ -423,6 +423,22 @@ def cases(tier, seed):
              ["T", ["stiefel"]], ["H", ["stiefel"]], ["transpose", ["stiefel"]], ["adjoint", ["stiefel"]], ["T", ["rot", 0]], ["transpose", ["kron", ["rot", 0], ["rot", 1]]],
              ["transpose", ["sum", P2c, P2c]], ["adjoint", ["kron", P2c, P2c]],
              ["sum", ["kron", P2, P2], ["blockdiag", [P2], [2]]], ["kron", ["sum", P2, ["pdiag", 2]], ["blockdiag", [["pdiag", 1]], [2]]]]
+    if tier == "thorough":
+        # every ordered pair of the true-declared leaves under every binary combinator, and under a scalar multiple / transposing wrapper
+        L = [P2, P2c, S2, S2c, G, ["pdiag", 2], ["rot", 0], ["rot", 1], ["perm", [1, 0]], ["identity", 2], ["dense", 2, 2, F8], ["dense", 2, 2, C16],
+             ["psd", 3, F8], ["selfadj", 3, C16]]
+        for a in L:
+            for b in L:
+                same = name5(a)[-1].isdigit() and name5(b)[-1].isdigit()
+                na, nb = (3 if "3" in name5(a) else 2), (3 if "3" in name5(b) else 2)
+                trees += [["kron", a, b], ["blockdiag", [a, b], [2, 1]]]
+                if na == nb:
+                    trees += [["sum", a, b], ["sum", a, ["scale", "free", b]]]
+                    if "identity" not in (a[0], b[0]):  # a product with an Identity is the other factor (PSD without an assembled certificate)
+                        trees += [["product", a, b], ["product", ["T", a], b]]
+            for w in ("T", "H", "transpose", "adjoint"):
+                trees.append([w, ["kron", a, a]])
+                trees.append([w, ["scale", "pos", a]])
     seen = set()
     for t in trees:
         nm = name5(t)
